@@ -163,6 +163,10 @@ impl Iterator for ManiaGradualDifficulty {
     }
 
     fn nth(&mut self, n: usize) -> Option<Self::Item> {
+        // As per `Iterator::nth`, if fewer than `n + 1` items remain, all of
+        // them are consumed and `None` is returned.
+        let in_bounds = n < self.len();
+
         let skip_iter = self
             .diff_objects
             .iter()
@@ -185,7 +189,7 @@ impl Iterator for ManiaGradualDifficulty {
             self.idx += 1;
         }
 
-        self.next()
+        self.next().filter(|_| in_bounds)
     }
 }
 
